@@ -760,20 +760,3 @@ func sortedKeys(m map[string]string) []string {
 	sort.Strings(ks)
 	return ks
 }
-
-// checkNoCapture: the let introduced for an if-init variable also scopes over the translated
-// tail.  That is harmless for a same-named variable declared AFTER the if statement (its own
-// let comes first), and a capture for one declared before it: only the latter is rejected.
-func (c *fnctx) checkNoCapture(def *ast.Ident, tail []ast.Stmt) {
-	obj := c.t.pkg.TypesInfo.Defs[def]
-	for _, s := range tail {
-		ast.Inspect(s, func(n ast.Node) bool {
-			if id, ok := n.(*ast.Ident); ok && id.Name == def.Name {
-				if o := c.t.pkg.TypesInfo.Uses[id]; o != nil && o != obj && o.Pos() < def.Pos() {
-					failf("%s: %q introduced by an if init would capture a different variable at %s", c.t.pos(def), def.Name, c.t.pos(id))
-				}
-			}
-			return true
-		})
-	}
-}
